@@ -113,3 +113,45 @@ func inLoop(b *ssa.BasicBlock) bool {
 	}
 	return false
 }
+
+type cfgEdge struct{ from, to *ssa.BasicBlock }
+
+// loopExits: the CFG edges leaving the innermost cycle (strongly connected
+// region) that contains b.
+func loopExits(b *ssa.BasicBlock) []cfgEdge {
+	reach := func(from *ssa.BasicBlock) map[*ssa.BasicBlock]bool {
+		seen := map[*ssa.BasicBlock]bool{}
+		work := append([]*ssa.BasicBlock{}, from.Succs...)
+		for len(work) > 0 {
+			x := work[len(work)-1]
+			work = work[:len(work)-1]
+			if seen[x] {
+				continue
+			}
+			seen[x] = true
+			work = append(work, x.Succs...)
+		}
+		return seen
+	}
+	fwd := reach(b)
+	if !fwd[b] {
+		return nil
+	}
+	loop := map[*ssa.BasicBlock]bool{}
+	for x := range fwd {
+		if reach(x)[b] {
+			loop[x] = true
+		}
+	}
+	// innermost: restrict to blocks dominated by the header of the smallest cycle through b —
+	// approximated by the SCC itself (nested loops share blocks; callers pick the instruction's own loop)
+	var out []cfgEdge
+	for x := range loop {
+		for _, s := range x.Succs {
+			if !loop[s] {
+				out = append(out, cfgEdge{x, s})
+			}
+		}
+	}
+	return out
+}
